@@ -149,6 +149,48 @@ where
       | none => none
     | _ => none
 
+/-- opcode width of the objects that carry a PkgLength right after their opcode -/
+def pkgLenOpcodeWidth : Op → Option Nat
+  | .buf | .bufterm | .uuid | .pkg | .pkgb | .varpkg | .rt | .scope | .scoperaw | .method
+  | .if_ | .while_ | .else_ => some 1
+  | .device | .field | .powerres => some 2
+  | _ => none
+
+/-- C07 on a real length-prefixed object at the root: the PkgLength after the opcode decodes, by
+    the specification's rule, to the number of bytes from its own first byte to the end of the
+    object, in the shortest encoding that can include its own size -/
+def c07Object (op : Op) (bs : Bytes) : Option String :=
+  match pkgLenOpcodeWidth op with
+  | none => none
+  | some ow =>
+    let rest := bs.drop ow
+    match Spec.PkgLength.decode rest with
+    | none => some "no PkgLength decodes after the opcode"
+    | some (total, w) =>
+      if total ≠ rest.length then some s!"PkgLength decodes to {total}; from its first byte to the end of the object there are {rest.length} bytes"
+      else if (List.range (w - 1)).any (fun w' => (total - w) + (w' + 1) ≤ Spec.PkgLength.maxOf (w' + 1)) then
+        some s!"PkgLength of width {w} is not the shortest that can include its own size (content {total - w})"
+      else none
+
+/-- C07 on the entries of a Field at the root: every named / reserved entry's width, which
+    excludes the prefix itself, decodes to exactly the width given.  `widths` = the entries'
+    bit widths with `true` for a named entry -/
+def c07FieldEntries (bs : Bytes) (nameLen : Nat) (widths : List (Bool × Nat)) : Option String :=
+  match Spec.PkgLength.decode (bs.drop 2) with
+  | none => none            -- reported by `c07Object`
+  | some (_, w) =>
+    let rec go (fuel : Nat) (rest : Bytes) (ws : List (Bool × Nat)) (i : Nat) : Option String :=
+      match fuel, ws with
+      | _, [] => if rest.isEmpty then none else some s!"{rest.length} bytes after the last field entry"
+      | 0, _ => some "out of fuel"
+      | fuel + 1, (named, bits) :: ws =>
+        let rest := if named then rest.drop 4 else rest.drop 1
+        match Spec.PkgLength.decode rest with
+        | none => some s!"entry #{i}: width does not decode"
+        | some (v, pw) =>
+          if v ≠ bits then some s!"entry #{i}: width decodes to {v}, given {bits}" else go fuel (rest.drop pw) ws (i + 1)
+    go (widths.length + 1) (bs.drop (2 + w + nameLen + 1)) widths 0
+
 /-- case `<env> term…` impl `<hex|panic> <alt> <sinks>` -/
 def checkAml (case impl : List String) : List Fail :=
   match case with
@@ -184,6 +226,26 @@ def checkAml (case impl : List String) : List Fail :=
                     else match Spec.Aml.parsesTo env bs (Spec.Aml.meaning t) with
                       | some e => [⟨"prop", "C06", "grammar-parse", e⟩]
                       | none => [])) ++
+              (match t with
+               | .node op _ blobs kids =>
+                 (match c07Object op bs with
+                  | some e => [⟨"prop", "C07", "object-pkglength", e⟩]
+                  | none => []) ++
+                 (if op = .field then
+                    let ws := kids.toList.filterMap fun k => match k with
+                      | .node .fnamed ints _ _ => some (true, ints.getD 0 0)
+                      | .node .freserved ints _ _ => some (false, ints.getD 0 0)
+                      | _ => none
+                    if ws.length ≠ kids.toList.length then [] else
+                    match Spec.NameString.decode (bs.drop (2 + ((Spec.PkgLength.decode (bs.drop 2)).map (·.2)).getD 1)) with
+                    | some (_, _, after) =>
+                      let nameLen := bs.length - (2 + ((Spec.PkgLength.decode (bs.drop 2)).map (·.2)).getD 1) - after.length
+                      let _ := blobs
+                      (match c07FieldEntries bs nameLen ws with
+                       | some e => [⟨"prop", "C07", "field-entry-width", e⟩]
+                       | none => [])
+                    | none => []
+                  else [])) ++
               (if isRt then
                  match t with
                  | .node _ _ _ kids =>
@@ -197,7 +259,11 @@ def checkAml (case impl : List String) : List Fail :=
           (match altOf t with
            | some t' =>
              let m' := (t'.enc.map bytesToHex).getD "panic"
-             if m' ≠ alt then [⟨"corr", "C15", "model-alt", s!"model alt {m'.take 80} impl alt {alt.take 80}"⟩] else []
+             -- C15's theorems treat the children's encodings as opaque: when the two implementation
+             -- paths agree and the main encoding already disagrees with the model (reported under
+             -- C06/C10), the alternative path's disagreement is that same one, not a framing matter
+             let mainDiffers := out ≠ (model.map bytesToHex).getD "panic"
+             if m' ≠ alt ∧ (alt ≠ out ∨ ¬ mainDiffers) then [⟨"corr", "C15", "model-alt", s!"model alt {m'.take 80} impl alt {alt.take 80}"⟩] else []
            | none => [])
         let sinkF : List Fail :=
           if sinks = "ok" ∨ sinks = "~" then [] else [⟨"prop", "C14", "sink-dependent", sinks⟩]
